@@ -93,6 +93,8 @@ pub struct Runner<'a> {
     /// every poll of the stream gets a waker of its own; only a wake-up of the most recent one counts
     pub fresh: bool,
     pub need_poll: bool,
+    /// number of the unit `run_unit` is driving (index of the boundary that ends it)
+    pub next_boundary: usize,
     pub ended: bool,
     pub polls: u64,
     pub stalled_wakeups: u64,
@@ -201,17 +203,20 @@ impl<'a> Runner<'a> {
     /// Run one unit: drive the machine until the unit boundary (Idle delivered, negative check
     /// decision, script exhausted, or end of stream).
     pub fn run_unit(&mut self) -> UnitEnd {
-        let nb = self.hub.lock().unwrap().boundaries.len();
+        // the unit's number: it is over when the hub has recorded that many boundaries plus one — which may already be the case
+        // (two refused requests queued at one wait are both decided within one poll)
+        let nb = self.next_boundary;
+        if self.hub.lock().unwrap().boundaries.len() > nb { self.next_boundary = nb + 1; self.poll_ctls(); return UnitEnd::Idle; }
         loop {
             if let Some(n) = self.crash_at { if self.hub.lock().unwrap().trace.len() >= n { return UnitEnd::Crashed; } }
             // drain everything the machine can do on its own
             while self.poll_stream() {
                 if let Some(n) = self.crash_at { if self.hub.lock().unwrap().trace.len() >= n { return UnitEnd::Crashed; } }
-                if self.hub.lock().unwrap().boundaries.len() > nb { self.poll_ctls(); return UnitEnd::Idle; }
+                if self.hub.lock().unwrap().boundaries.len() > nb { self.next_boundary = nb + 1; self.poll_ctls(); return UnitEnd::Idle; }
             }
             self.poll_ctls();
             if self.ended { return UnitEnd::StreamEnded; }
-            if self.hub.lock().unwrap().boundaries.len() > nb { return UnitEnd::Negative; }
+            if self.hub.lock().unwrap().boundaries.len() > nb { self.next_boundary = nb + 1; return UnitEnd::Negative; }
             // the machine is blocked: decide what the environment does next
             let http = self.hub.lock().unwrap().http_waiting;
             if let Some(g) = http {
